@@ -53,6 +53,15 @@ type World struct {
 	// Vars is free storage for scenarios (e.g. snapshots); guarded by the caller.
 	Vars map[string]any
 	vio  []Violation
+	// slowest is the longest virtual time any environment event stayed pending before it was answered.
+	slowest time.Duration
+}
+
+// SlowestAnswer returns the longest virtual time a gate stayed pending before it was granted (or the run ended).
+func (w *World) SlowestAnswer() time.Duration {
+	w.mu.Lock()
+	defer w.mu.Unlock()
+	return w.slowest
 }
 
 // NewWorld creates a world; must be called inside the bubble of the execution.
@@ -199,6 +208,9 @@ func (w *World) Grant(name, answer string) bool {
 	w.mu.Lock()
 	for _, p := range w.pending {
 		if p.name == name {
+			if d := time.Since(w.start) - p.since; d > w.slowest {
+				w.slowest = d
+			}
 			w.remove(p)
 			w.mu.Unlock()
 			p.ch <- answer
@@ -213,6 +225,11 @@ func (w *World) Grant(name, answer string) bool {
 func (w *World) Abort() {
 	w.mu.Lock()
 	w.aborted = true
+	for _, p := range w.pending {
+		if d := time.Since(w.start) - p.since; d > w.slowest {
+			w.slowest = d
+		}
+	}
 	ps := w.pending
 	w.pending = nil
 	w.mu.Unlock()
